@@ -659,3 +659,53 @@ def _png():
 
 
 JOBS = {"C17.native_geometry": _native_geometry}
+
+
+# ---------------------------------------------------------------------------------------------------------
+# the flips the end-point arithmetic reads: every spelling of xsd:boolean counts
+
+
+def _replay_flip(model, rec):
+    from pptx.oxml import parse_xml
+    from pptx.oxml.ns import nsdecls
+
+    for attr in ("flipH", "flipV"):
+        for lex, want in (("1", True), ("true", True), ("0", False), ("false", False), (None, False)):
+            x = '<a:xfrm%s><a:off x="1" y="2"/><a:ext cx="3" cy="4"/></a:xfrm>' % ("" if lex is None else ' %s="%s"' % (attr, lex))
+            sp = parse_xml('<p:cxnSp %s><p:nvCxnSpPr><p:cNvPr id="2" name="c"/><p:cNvCxnSpPr/><p:nvPr/></p:nvCxnSpPr><p:spPr>%s</p:spPr></p:cxnSp>' % (nsdecls("p", "a"), x))
+            got = getattr(sp, attr)
+            if got is not want:
+                return {"confirmed": True, "witness_class": "connector-flip", "detail": "a:xfrm with %s=%r: the connector element reports %s = %r" % (attr, lex, attr, got)}
+    return {"confirmed": False, "detail": "both spellings of true / false and absence are read as xsd:boolean"}
+
+
+def _make_flip(attr, state):
+    @contract("C17", "C17.oxml.shapes.shared.BaseShapeElement.%s[%s]" % (attr, state), replay=_replay_flip)
+    def body(c):
+        """flipH / flipV of a shape element is the xsd:boolean reading of a:xfrm/@flipH|@flipV -- '1' and 'true' are true, '0' and 'false'
+        false -- and false without the attribute or without a:xfrm (lexical forms enumerated; the attribute descriptor runs from source)."""
+        from pptx.oxml.shapes.connector import CT_Connector
+        from pptx.oxml.shapes.shared import CT_Transform2D
+        from pyvc.engine import SObj
+
+        from .c09 import AttrElem
+
+        if state == "no a:xfrm":
+            xfrm, want = None, False
+        elif state == "attribute absent":
+            xfrm, want = AttrElem(CT_Transform2D, {}), False
+        else:
+            xfrm, want = AttrElem(CT_Transform2D, {attr: state}), state in ("1", "true")
+        el = SObj(CT_Connector, "cxnSp", xfrm=xfrm)
+        out = c.getattr(el, attr)
+        if out.raised:
+            c.fails("never_raises", "raised %s" % out.exc)
+            return
+        c.ensures("post.xsd_boolean_reading", out.value is want)
+
+    return body
+
+
+for _a in ("flipH", "flipV"):
+    for _st in ("no a:xfrm", "attribute absent", "1", "true", "0", "false"):
+        _make_flip(_a, _st)
